@@ -1,5 +1,5 @@
 (* C16 — every patch the packaging tool produces inflates back to the new binary. *)
-From UV Require Import Base Codec Model PMLemmas Inv Ban Handout Calls CodecProofs.
+From UV Require Import Base Codec Model PMLemmas Inv Ban Handout Calls CodecProofs Chunked.
 
 (* integer-encoding: what the writer emits is what the reader decodes, for every usize / i64 *)
 Theorem C16_varint_u64 :
@@ -23,6 +23,38 @@ Theorem C16_roundtrip :
     apply_patch old (simple_diff old new ms) = Some new.
 Proof. exact roundtrip. Qed.
 Print Assumptions C16_roundtrip.
+
+(* The library does not apply the patch in one piece: std::io::copy pulls it through
+   bipatch::Reader::read with buffers of its own choosing, and the Reader moves add blocks through a
+   4096-byte scratch buffer.  For EVERY sequence of non-empty buffer sizes and every scratch size the
+   streamed result is the one-shot result, error for error (target sizes crossing any internal buffer
+   size included) *)
+Theorem C16_any_buffer_schedule :
+  forall (old : bytes) (cap : N) (sizes : nat -> N),
+    0 < cap -> (forall j, 0 < sizes j) ->
+    forall patch : bytes, apply_patch_chunked cap sizes old patch = apply_patch old patch.
+Proof. exact chunked_is_oneshot. Qed.
+Print Assumptions C16_any_buffer_schedule.
+
+Theorem C16_streamed_roundtrip :
+  forall (old new : bytes) (ms : list bmatch) (cap : N) (sizes : nat -> N),
+    wf_bytes old -> wf_bytes new ->
+    (Z.of_N (blen old) < two63)%Z -> (Z.of_N (blen new) < two63)%Z ->
+    wf_matches old new ms = true ->
+    0 < cap -> (forall j, 0 < sizes j) ->
+    apply_patch_chunked cap sizes old (simple_diff old new ms) = Some new.
+Proof.
+  intros old new ms cap sizes Wo Wn Bo Bn Hwf Hc Hs.
+  rewrite chunked_is_oneshot by assumption. apply roundtrip; assumption.
+Qed.
+Print Assumptions C16_streamed_roundtrip.
+
+(* non-vacuity: a two-record patch streamed through 1-byte buffers with a 2-byte scratch *)
+Example C16_chunked_example :
+  apply_patch_chunked 2 (fun _ => 1) [10; 20; 30; 40; 50]
+    (header ++ [3; 1; 1; 1; 2; 7; 8; 0] ++ [2; 0; 0; 1; 9; 0])
+  = Some [11; 21; 31; 7; 8; 40; 50; 9].
+Proof. vm_compute. reflexivity. Qed.
 
 (* the hash the tool prints (hex of SHA-256 of the new file) passes the library's hash gate *)
 Theorem C16_hash_gate :
